@@ -29,5 +29,5 @@ size_t strlcpy(char *dst, const char *src, size_t size) {
 
 	*dst = '\0';
 
-	return s - src;
+	return (s - src) + strlen(s);	/* strlen(src): lets the caller detect truncation */
 }
